@@ -2139,3 +2139,59 @@ Example C04_9_family_instance :
   /\ C04_CostMime.n_params (C04_Quad2.mime_distinct2 12) = 12
   /\ 12 * 11 <= 2 * C04_CostMime.mime_parse_cost (C04_Quad2.mime_distinct2 12).
 Proof. vm_compute. repeat split; intros H; discriminate H. Qed.
+
+(* COST OF THE HEADER PRE-PARSER OF DataUrl::process (Proofs/C04_CostData.v; cost semantics of Model/Cost.v: one step per
+   element examined by a scan or loop, per String::push, slice or literal comparison; push_str of x = nlen x).  The step
+   counts follow the data flow of the model functions of Model/DataUrl.v (pretend_parse_data_url,
+   find_comma_before_fragment, parse_header, remove_base64_suffix) on the UTF-8 bytes of the argument:
+     (1) everything except Mime::from_str costs at most 13 |input| + 31 steps, for EVERY byte input;
+     (2) the String handed to Mime::from_str (header_text) has at most 3 |input| + 10 bytes and is a &str;
+     (3) it IS the string the model parses: the MIME type of every DataUrl returned is its parse result or the fallback;
+     (4) the whole: 13 |input| + 31 + (14 + P)(3 |input| + 11) + 4 when the header parses to a MIME type with P
+         parameters - linear for a bounded number of parameters; the product term is finding F-C04-9 (C04_9_quadratic,
+         C04_9_refuted) reaching DataUrl::process through its MIME header;
+     (5) inputs that do not reach Mime::from_str (not a data: URL, no comma): 13 |input| + 31.
+   The body decoders are C04_cost_base64 / C04_cost_percent_encoding. *)
+From RU Require Proofs.C04_CostData.
+Theorem C04_cost_data_url : forall input, bytes input ->
+  C04_CostData.scan_cost input <= 13 * nlen input + 31
+  /\ (forall hs, C04_CostData.header_text input = Some hs -> nlen hs <= 3 * nlen input + 10 /\ usv_list hs)
+  /\ (forall d, DataUrl.process_bytes input = Mime.Ok (inl d) ->
+        exists hs parsed, C04_CostData.header_text input = Some hs /\ Mime.from_str hs = Mime.Ok parsed
+          /\ DataUrl.du_mime_type d = match parsed with Some m => m | None => DataUrl.fallback_mime end)
+  /\ (forall hs m, C04_CostData.header_text input = Some hs -> Mime.parse hs = Mime.Ok (Some m) ->
+        C04_CostData.process_cost input
+        <= 13 * nlen input + 31 + (14 + C04_CostMime.plen (Mime.m_params m)) * (3 * nlen input + 11) + 4)
+  /\ (C04_CostData.header_text input = None -> C04_CostData.process_cost input <= 13 * nlen input + 31).
+Proof.
+  intros input Hb. split; [exact (C04_CostData.scan_cost_linear input)|]. split.
+  - intros hs H. exact (conj (C04_CostData.header_text_len input hs H) (C04_CostData.header_text_usv input hs Hb H)).
+  - split; [exact (C04_CostData.header_text_model input)|]. split.
+    + intros hs m H1 H2. exact (C04_CostData.process_cost_linear input hs m Hb H1 H2).
+    + exact (C04_CostData.process_cost_no_header input).
+Qed.
+Check C04_cost_data_url : forall input, bytes input ->
+  C04_CostData.scan_cost input <= 13 * nlen input + 31
+  /\ (forall hs, C04_CostData.header_text input = Some hs -> nlen hs <= 3 * nlen input + 10 /\ usv_list hs)
+  /\ (forall d, DataUrl.process_bytes input = Mime.Ok (inl d) ->
+        exists hs parsed, C04_CostData.header_text input = Some hs /\ Mime.from_str hs = Mime.Ok parsed
+          /\ DataUrl.du_mime_type d = match parsed with Some m => m | None => DataUrl.fallback_mime end)
+  /\ (forall hs m, C04_CostData.header_text input = Some hs -> Mime.parse hs = Mime.Ok (Some m) ->
+        C04_CostData.process_cost input
+        <= 13 * nlen input + 31 + (14 + C04_CostMime.plen (Mime.m_params m)) * (3 * nlen input + 11) + 4)
+  /\ (C04_CostData.header_text input = None -> C04_CostData.process_cost input <= 13 * nlen input + 31).
+Print Assumptions C04_cost_data_url.
+
+(* " dAta:;a=1; base64,eHg#f" : the header text is "text/plain;a=1" (prefix added, base64 suffix removed), it parses to
+   one parameter, and the step count of the whole pre-parser is 163 on these 24 bytes (54 without Mime::from_str) *)
+Example C04_cost_data_url_instance :
+  let input := [32; 100; 65; 116; 97; 58; 59; 97; 61; 49; 59; 32; 98; 97; 115; 101; 54; 52; 44; 101; 72; 103; 35; 102] in
+  C04_CostData.header_text input = Some [116; 101; 120; 116; 47; 112; 108; 97; 105; 110; 59; 97; 61; 49]
+  /\ (exists m, Mime.parse [116; 101; 120; 116; 47; 112; 108; 97; 105; 110; 59; 97; 61; 49] = Mime.Ok (Some m)
+                /\ C04_CostMime.plen (Mime.m_params m) = 1)
+  /\ C04_CostData.scan_cost input = 54 /\ C04_CostData.process_cost input = 163.
+Proof.
+  cbv zeta. split; [vm_compute; reflexivity|]. split.
+  - eexists. split; vm_compute; reflexivity.
+  - split; vm_compute; reflexivity.
+Qed.
